@@ -145,11 +145,16 @@ func (t *tr) ifStmt(s *ast.IfStmt, rest []ast.Stmt, k func() string) string {
 	case terminates(thenL):
 		a := t.branch(thenL, t.noFall)
 		b := t.block(append(append([]ast.Stmt{}, elseL...), rest...), k)
-		return pre + "if " + c.e + " then\n" + indent(a) + "\nelse\n" + indent(b)
+		cc := c.e
+		if s.Else != nil { // an explicit if/else (not the early-return idiom): canonical polarity
+			cc, a, b = ifCond(c.e, a, b)
+		}
+		return pre + "if " + cc + " then\n" + indent(a) + "\nelse\n" + indent(b)
 	case s.Else != nil && terminates(elseL):
 		b := t.branch(elseL, t.noFall)
 		a := t.block(append(append([]ast.Stmt{}, thenL...), rest...), k)
-		return pre + "if " + c.e + " then\n" + indent(a) + "\nelse\n" + indent(b)
+		cc, a, b := ifCond(c.e, a, b)
+		return pre + "if " + cc + " then\n" + indent(a) + "\nelse\n" + indent(b)
 	}
 	t.join(c.e, thenL, elseL)
 	return pre + t.block(rest, k)
@@ -323,6 +328,9 @@ func (t *tr) join(cond string, thenL, elseL []ast.Stmt) {
 	pat := names[0]
 	if len(names) > 1 {
 		pat = "'(" + strings.Join(names, ", ") + ")"
+	}
+	if len(elseL) != 0 { // explicit if/else: canonical polarity
+		cond, a, b = ifCond(cond, a, b)
 	}
 	if strings.Contains(a, "\n") || strings.Contains(b, "\n") {
 		t.emit("let " + pat + " :=\n  if " + cond + " then\n" + indent(indent(a)) + "\n  else\n" + indent(indent(b)) + " in")
